@@ -221,6 +221,34 @@ func genC01(g *Rng, tier string, emit func(Op)) {
 						emit(verifyDOp(kp.id, t2, ctx, nonce, false, "shift-disclosed", label))
 					}
 				}
+				// a signature with an exponent far below its interval (e = 1 needs no private key at all:
+				// A = Z / (S^v prod R_i^m_i)), presented with an e-randomiser large enough to keep the
+				// e-response positive: only the bound on the e-response, as the specification derives it
+				// (l_e' + l_statzk + l_h + 1 bits), stands in the way
+				if !toy {
+					for _, e := range []int64{1, 3, 65537} {
+						fs := forgeSig(kp, cc.cred.Attributes, bi(e), g.exactBits(int(pk.Params.Lv)-1), nil)
+						if fs == nil {
+							continue
+						}
+						fc := &gabi.Credential{Pk: pk, Signature: fs, Attributes: cc.cred.Attributes}
+						fb, err := fc.CreateDisclosureProofBuilder(disclosed, nil, false)
+						if err != nil {
+							continue
+						}
+						eC, _, _ := fb.VerifRandomizers()
+						eC.Set(g.exactBits(int(pk.Params.Le + pk.Params.Lh + 2)))
+						fch, err := gabi.ProofBuilderList{fb}.ChallengeWithRandomizers(ctx, nonce, map[string]*big.Int{"secretkey": g.bits(int(pk.Params.LmCommit) - 2)}, false)
+						if err != nil {
+							continue
+						}
+						fp := fb.CreateProof(fch).(*gabi.ProofD)
+						if fp.EResponse.Sign() < 0 {
+							continue
+						}
+						emit(verifyDOp(kp.id, proofDTree(fp), ctx, nonce, false, "small-e-signature-large-e-response", "reject").with("fkey", "C01/small-e-signature"))
+					}
+				}
 				// in-memory proofs (no wire format carries a sign): a disclosed value longer than the message
 				// length, negated. The attribute hash is over the magnitude, so -x meets the equation
 				// of a credential over x - and is a value the issuer did not sign
